@@ -8,7 +8,7 @@ def cli_nontrivial(line, go):
 
 SUITES = {
     "client": {
-        "n_quick": 400, "n_thorough": 5000,
+        "n_quick": 300, "n_thorough": 5000,
         "nontrivial": cli_nontrivial,
     },
 }
